@@ -84,7 +84,7 @@ def run_once(mod, tier, verif_seed, run_index, replay=None, scenario=None):
 
 
 # ------------------------------------------------------------------ shrinking
-def shrink(mod, tier, tapes, want_sig, budget_s):
+def shrink(mod, tier, tapes, want_sig, budget_s, scenario=None):
     """generic tape shrinker: keeps a candidate only if the same signature is
     still reported."""
     deadline = time.time() + budget_s
@@ -94,7 +94,7 @@ def shrink(mod, tier, tapes, want_sig, budget_s):
     def fails(t):
         tries[0] += 1
         try:
-            res, rec = run_once(mod, tier, 0, 0, replay=t)
+            res, rec = run_once(mod, tier, 0, 0, replay=t, scenario=scenario)
         except Exception:
             return None
         if res.harness_error:
@@ -120,7 +120,7 @@ def shrink(mod, tier, tapes, want_sig, budget_s):
     improved = True
     while improved and time.time() < deadline:
         improved = False
-        for name in ("S", "F", "W"):
+        for name in (("S", "F") if scenario is not None else ("S", "F", "W")):
             # truncate
             lst = cur[name]
             n = len(lst)
@@ -254,7 +254,7 @@ def _worker(prop, tier, verif_seed, wid, nworkers, budget_s, max_runs, known_sig
             if sig in seen_sigs:
                 continue
             seen_sigs.add(sig)
-            st["violations"].append({"sig": sig, "msg": v.msg, "run_index": i, "tapes": rec})
+            st["violations"].append({"sig": sig, "msg": v.msg, "run_index": i, "tapes": rec, "scenario": res.scenario})
         if len(st["violations"]) >= 3:
             break
         i += nworkers
@@ -268,8 +268,14 @@ def _worker(prop, tier, verif_seed, wid, nworkers, budget_s, max_runs, known_sig
 def _shrink_job(prop, tier, viol, budget_s):
     mod = load_prop(prop)
     tapes, tries, ok = shrink(mod, tier, viol["tapes"], viol["sig"], budget_s)
+    pinned = None
+    if not ok and viol.get("scenario") is not None:
+        # the scenario did not come from the W tape (an enumerated case): pin it, shrink schedule and faults only
+        pinned = viol["scenario"]
+        tapes, tries2, ok = shrink(mod, tier, viol["tapes"], viol["sig"], budget_s, scenario=pinned)
+        tries += tries2
     # final replay for digest + message
-    res, rec = run_once(mod, tier, 0, 0, replay=tapes)
+    res, rec = run_once(mod, tier, 0, 0, replay=tapes, scenario=pinned)
     msg = viol["msg"]
     for v in res.violations:
         if v.sig(prop) == viol["sig"]:
